@@ -12,7 +12,8 @@ Result is written to seeded/<name>/ (patch.diff, demo.cpp, meta.json)."""
 import json, os, shutil, subprocess, sys, time
 
 VERIF = os.path.dirname(os.path.dirname(os.path.abspath(__file__)))
-SCR, SB = "/work/seedcheck/repo", "/work/seedcheck/build"
+ROOT = os.environ.get("SEEDCHECK_DIR", "/work/seedcheck")
+SCR, SB = ROOT + "/repo", ROOT + "/build"
 ENV = dict(os.environ, LD_LIBRARY_PATH="/root/miniconda/lib")
 
 
@@ -61,7 +62,7 @@ def main():
         res["applies"] = True
         rc, out = build(); res["compiles"] = rc == 0 and "FAILED" not in out
         newfail, tail = ctest(); res["tests_newly_failing_with_patch"] = newfail
-        work = "/work/seedcheck/demo"; shutil.rmtree(work, ignore_errors=True); os.makedirs(work)
+        work = ROOT + "/demo"; shutil.rmtree(work, ignore_errors=True); os.makedirs(work)
         rc_p, out_p = demo(os.path.join(sdir, "demo.cpp"), os.path.join(work, "demo_patched"))
         res["demo_patched"] = {"exit": rc_p, "tail": out_p}
         sh(f"git -C {SCR} checkout -q -- .")
@@ -71,6 +72,8 @@ def main():
         res["valid_seed"] = bool(res["compiles"] and not newfail and rc_p not in (0, None) and rc_c == 0)
     # run the registered check against the change in /repo itself
     if res.get("applies"):
+        import fcntl
+        lock = open("/work/seedcheck.lock", "w"); fcntl.flock(lock, fcntl.LOCK_EX)     # one confirmation at a time in /repo
         assert sh("git -C /repo status --porcelain --untracked-files=no")[1].strip() == "", "/repo not clean"
         sh(f"git -C /repo apply {patch}")
         evf = os.path.join(VERIF, "evidence", prop + ".json")
